@@ -273,6 +273,59 @@ def _represent(rng, j):
     raise TypeError(type(j))
 
 
+ZERO_REPRS = [("float64", "-0"), ("float64", "-0"), ("float64", "0"), ("int", "0"), ("jnum", "-0"), ("jnum", "-0.0"), ("jnum", "0.0"), ("jnum", "0"),
+              ("float32", "-0"), ("int64", "0"), ("uint8", "0"), ("jnum", "0e0"), ("jnum", "-0e0"), ("myfloat", "-0"), ("jnum", "-0.00"), ("myint", "0")]
+
+
+def zero_array(rng):
+    """(j, reprs): a JSON array holding the number ZERO twice or more (bare, or inside otherwise equal arrays / objects), sometimes
+    next to other values or with one of the zeros replaced by another number, and 4 Go representations of it. The first is a
+    decoding by encoding/json of a document that spells every zero 0 or -0.0 (float64 0 / IEEE negative zero in []any /
+    map[string]any); in the others each zero independently is float64 / float32 / named float -0 or +0, an integer kind, or a
+    json.Number spelled 0, -0, -0.0, 0.0, 0e0, inside untyped or typed containers."""
+    wrap = rng.choice(["", "", "arr", "obj", "arr2", "objarr"])
+    n = rng.choice([2, 2, 2, 3])
+    vals = ["0"] * n
+    if rng.random() < 0.2:
+        vals[rng.randrange(n)] = rng.choice(["1", "-1", "0.5"])
+    fill = [(rng.randrange(n + 1), rng.choice([Num("1"), "0", "", None, False, [], Num("-1")])) for _ in range(rng.choice([0, 0, 1, 2]))]
+
+    def wrapj(x):
+        return {"": x, "arr": [x], "obj": Obj([("a", x)]), "arr2": [[x], "s"], "objarr": Obj([("k", [x, None])])}[wrap]
+
+    def wrapd(d, canonical):
+        anyT = canonical or rng.random() < 0.5
+        if wrap == "":
+            return d
+        if wrap == "arr":
+            return {"t": "[]any" if anyT else rng.choice(["[]", "[1]"]) + d["t"], "v": [d]}
+        if wrap == "obj":
+            return {"t": "map[string]any" if anyT else "map[%s]%s" % (rng.choice(["string", "mystring"]), d["t"]), "v": [["a", d]]}
+        if wrap == "arr2":
+            return {"t": "[]any", "v": [{"t": "[]any" if anyT else "[]" + d["t"], "v": [d]}, {"t": "string", "v": "s"}]}
+        return {"t": "map[string]any", "v": [["k", {"t": "[]any", "v": [d, None]}]]}
+
+    j = [wrapj(Num(v)) for v in vals]
+    for pos, f in fill:
+        j.insert(pos, f)
+    reprs = []
+    for r in range(4):
+        items = []
+        for v in vals:
+            if v != "0":
+                d = {"t": "float64", "v": v} if r == 0 else represent_as(rng, Num(v), rng.choice(["float64", "jnum", "float32"]))
+            elif r == 0:
+                d = {"t": "float64", "v": rng.choice(["0", "-0"])}
+            else:
+                t, x = rng.choice(ZERO_REPRS)
+                d = {"t": t, "v": x}
+            items.append(wrapd(d, r == 0))
+        for pos, f in fill:
+            items.insert(pos, canonical_repr(f))
+        reprs.append({"t": "[]any" if r == 0 or rng.random() < 0.7 else "[%d]any" % len(items), "v": items})
+    return j, reprs
+
+
 def canonical_repr(j):
     """What encoding/json produces when decoding into `any`."""
     if j is None:
